@@ -44,6 +44,7 @@ def main(argv):
         t = re.sub(r'\n[ \t]+\n', '\n\n', t); f = re.sub(r'(\n[ \t]*){3,}', '\n\n', f)
         open(os.path.join(gendir, name + '_types.h'), 'w').write(t)
         open(os.path.join(gendir, name + '_slice.c'), 'w').write(f)
+        open(os.path.join(gendir, name + '_protos.h'), 'w').write(''.join(fn['sig'] + ';\n' for fn in mod.UNIT['functions']))
         return recs
     emitted = set()
     for name in all_units():
